@@ -43,6 +43,15 @@ def main():
     r = tlc("SinkOrder", "SinkOrder_mut.cfg", os.path.join(run.wd, "so_mut"), workers=2, timeout=600)
     if r.ok:
         raise ToolError("vacuity: the header-first design was NOT rejected by PrefixSafe")
+    # the same design over a destination that already holds another complete file: StaleSafe (while the old header is what a reader sees,
+    # nothing the old file advertises has been touched); a writer that does not blank the header first MUST fail it
+    for z in (0, 1, 2):
+        r = tlc("SinkOrder", "SinkOrder_stale_%d.cfg" % z, os.path.join(run.wd, "so_stale_%d" % z), workers=2, timeout=600, deadlock_off=True)
+        tlc_must_pass(r, "SinkOrder PrefixSafe + StaleSafe over an older file (zooms=%d)" % z)
+        run.add_tlc("design_stale_z%d" % z, r)
+    r = tlc("SinkOrder", "SinkOrder_mut2.cfg", os.path.join(run.wd, "so_mut2"), workers=2, timeout=600)
+    if r.ok:
+        raise ToolError("vacuity: a writer that leaves the old header in place was NOT rejected by StaleSafe")
     # layouts
     rng = random.Random(run.seed)
     lay = []
